@@ -8,6 +8,10 @@ CLAIMED = {
          "static analysis: MIR table extraction, interval arithmetic over type ranges, path-wise ghost-length accounting"),
  'C20': ("decides for all inputs: (R20.1) every document-driven recursion reachable from the entry points has a depth guard (eight unguarded SCCs are listed as known findings), (R20.2) no checked arithmetic on a <=32-bit integer in the cone can overflow for parameters over their whole type, (R20.3) every index into a fixed-size table is bounded; stack use of non-recursive code and allocation failure are NOT decided",
          "static analysis: call-graph SCCs with depth-guard detection, interval analysis along CFG paths"),
+ 'C10': ("decides for all byte strings: (R10.1) every panic site in the cone of from_slice/parse_jsonb (bounds and unsigned-subtraction asserts, unwrap/expect, slice indexing, explicit panics) is discharged on every CFG path by interval/difference-constraint facts, success of checked readers and element-count accounting of queues, or is a reviewed assumption; (R10.2) no unvalidated bytes become a str; (R10.3) the binary decoder is entered only for a JSONB first byte or after the text parser rejected the input; (R10.4) the decoder reads its input only through checked readers; (R10.5) recursion on nesting depth (known finding). That every proper prefix is rejected is NOT decided",
+         "static analysis: MIR panic-site inventory with interval + zone provers, queue-count accounting, dominance/path conditions"),
+ 'C17': ("decides for all inputs and buffer contents: (R17.1) only append-class operations ever receive the caller's buffer, transitively through helpers and the Encoder wrapper; (R17.2) every index-assign/resize position is relative to a length snapshot taken inside the call (net |buffer| coefficient 1); (R17.4) no documented error is returned after a write; (R17.5) reported offsets are data.len() after the item",
+         "static analysis: alias/provenance dataflow over MIR, linear |buffer|-coefficient tagging, path enumeration"),
 }
 NOT_APPLICABLE = {
 }
